@@ -34,6 +34,30 @@ import c04_oracle as orc  # noqa: E402
 MAXTID = 2 ** 64 - 1
 logging.disable(logging.CRITICAL)
 
+# storage kinds: fs / map have a Lean model; hexfs / hexmap (ZODB.tests.hexstorage.HexStorage around
+# them: record transform), demo (DemoStorage over MappingStorages, optionally pushed once more) and
+# demofs (DemoStorage(base=FileStorage, changes=FileStorage)) are judged by the oracle only
+KINDS = ('fs', 'map', 'demo', 'hexfs', 'hexmap', 'demofs')
+FILE_KINDS = ('fs', 'hexfs', 'demofs')
+DEMO_KINDS = ('demo', 'demofs')
+MODEL_PREFIX = {'fs': '', 'map': 'm.'}
+
+
+class Ctx:
+    """what the storage of a case can do right now (a demofs case is a plain FileStorage until its
+    base is complete)"""
+
+    def __init__(self, kind, real):
+        self.kind, self.real = kind, real
+
+    @property
+    def fsops(self):       # deleteObject / restore / undo / status / undo log / record_iternext ...
+        return self.kind in ('fs', 'hexfs') or (self.kind == 'demofs' and not self.real.wrapped)
+
+    def line(self, text):
+        pre = MODEL_PREFIX.get(self.kind)
+        return None if pre is None else pre + text
+
 
 def p64(n):
     return struct.pack('>Q', n)
@@ -121,7 +145,7 @@ def ext_key(d):
 
 ERRMAP = {'POSKeyError': 'err:KeyError', 'ConflictError': 'err:Conflict', 'UndoError': 'err:Undo',
           'MultipleUndoErrors': 'err:Undo', 'StorageTransactionError': 'err:StorageTransaction',
-          'FileStorageError': 'err:FileStorageError', 'TypeError': 'err:TypeError',
+          'FileStorageError': 'err:FileStorageError', 'FileStorageQuotaError': 'err:Quota', 'TypeError': 'err:TypeError',
           'ValueError': 'err:ValueError', 'KeyError': 'err:KeyError',
           'ReadConflictError': 'err:ReadConflict'}
 
@@ -195,7 +219,7 @@ def qall_line(q):
         ','.join(str(n) for n in q['linv']))
 
 
-def qall_segments(api, q, kind):
+def qall_segments(api, q, fsq):
     """api: object with load/getTid/loadSerial/loadBefore/lastTransaction/history/undoLog/iterator/
     lastInvalidations/recordIter returning python values or 'err:…' strings"""
     segs = ['lastTransaction=' + hx(api.lastTransaction())]
@@ -214,7 +238,7 @@ def qall_segments(api, q, kind):
     for o in q['oids']:
         for n in q['hsizes']:
             segs.append('history(%s,%d)=%s' % (hx(o), n, f_entries(api.history(o, n))))
-    if kind == 'fs':
+    if fsq:
         for f, l in q['windows']:
             segs.append('undoLog(%d,%d)=%s' % (f, l, f_entries(api.undoLog(f, l))))
         for u, f, l in q['fwindows']:
@@ -226,7 +250,7 @@ def qall_segments(api, q, kind):
     for a, b in q['iters']:
         segs.append('iterator(%s,%s)=%s' % ('None' if a is None else hx(a), 'None' if b is None else hx(b),
                                             f_txns(api.iterator(a, b))))
-    if kind == 'fs':
+    if fsq:
         for n in q['linv']:
             segs.append('lastInvalidations(%d)=%s' % (n, f_linv(api.lastInvalidations(n))))
         segs.append('recordIter=' + f_walk(*api.recordIter()))
@@ -312,8 +336,41 @@ class RealBase:
     """query side shared by the three storages; self.st is the storage object"""
     kind = None
 
+    wrapped = False
+    db = None
+
     def __init__(self):
         self.ext_table = {ext_key({}): b''}
+
+    def lock_owner(self):
+        """the object whose _commit_lock tpc_begin waits for"""
+        return self.st
+
+    # -- the same storage reached through ZODB.DB (DB.history / DB.undoLog / DB.undoInfo)
+    def open_db(self, now):
+        """DB(storage): creates the root object in a transaction of its own on first use"""
+        import ZODB
+        old = time.time
+        time.time = lambda: now
+        try:
+            self.db = ZODB.DB(self.st)
+        finally:
+            time.time = old
+
+    @staticmethod
+    def _text(l):
+        return [dict(d, **{k: d[k].decode('utf-8') for k in ('user_name', 'description')
+                           if isinstance(d.get(k), bytes)}) for d in l]
+
+    def via_db(self, name, raw, *args):
+        """'' or an error marker: the DB entry point must give the storage's answer (as text)"""
+        if self.db is None:
+            return ''
+        try:
+            got = list(getattr(self.db, name)(*args))
+            return '' if got == self._text(raw) else ' !DB.%s-differs' % name
+        except Exception as e:  # noqa: BLE001
+            return ' !DB.%s-%s' % (name, type(e).__name__)
 
     # -- a second thread enters tpc_begin while the transaction in progress holds the commit lock
     def begin_overlapped(self, tid, now, status, u, d, e):
@@ -322,8 +379,9 @@ class RealBase:
         self.note_ext(e)
         self.next_txn = TransactionMetaData(u, d, e)
         arrived = threading.Event()
-        self._spied = self.st._commit_lock
-        self.st._commit_lock = SpyLock(self._spied, arrived)
+        owner = self._lock_owner = self.lock_owner()
+        self._spied = owner._commit_lock
+        owner._commit_lock = SpyLock(self._spied, arrived)
         self._old_time = time.time
         if tid is None:
             time.time = lambda: now
@@ -338,7 +396,7 @@ class RealBase:
     def begin_overlapped_join(self):
         self._thread.join(30.0)
         time.time = self._old_time
-        self.st._commit_lock = self._spied
+        self._lock_owner._commit_lock = self._spied
         r = self._holder.get('r', 'err:tpc_begin-did-not-return')
         self.txn = self.next_txn
         return '%s tid=%s' % (r, hx(u64(self._cur_tid())))
@@ -396,30 +454,96 @@ class RealBase:
 
 
 class RealFS(RealBase):
+    """FileStorage (kind fs), HexStorage around it (hexfs), or the two layers of a
+    DemoStorage(base=FileStorage, changes=FileStorage) (demofs), constructed directly or through
+    ZODB.config, with default or explicit option values"""
     kind = 'fs'
 
-    def __init__(self, tmp):
+    def __init__(self, tmp, kind='fs', ctor='direct', quota=None):
         RealBase.__init__(self)
-        from ZODB.FileStorage import FileStorage
-        self.FileStorage = FileStorage
+        self.kind, self.ctor, self.quota = kind, ctor, quota
+        self.nopen = 0
         self.dir = tempfile.mkdtemp(dir=tmp)
         self.path = os.path.join(self.dir, 'Data.fs')
-        self.st = FileStorage(self.path)
+        self.path2 = os.path.join(self.dir, 'Changes.fs')
+        self.raw = self.open_fs(self.path, first=True)
+        self.st = self.wrap(self.raw)
         self.txn = None
+
+    def open_fs(self, path, first=False, read_only=False):
+        """one FileStorage, by the construction path of this case; booleans that must not matter
+        are given explicitly and alternate between opens"""
+        from ZODB.FileStorage import FileStorage
+        import ZODB.config
+        self.nopen += 1
+        flip = bool(self.nopen % 2)
+        tf = {True: 'true', False: 'false'}
+        if self.ctor == 'direct':
+            return FileStorage(path, read_only=True) if read_only else FileStorage(path)
+        if self.ctor == 'direct-opts':
+            return FileStorage(path, create=first and not read_only, read_only=read_only, quota=self.quota,
+                               pack_gc=flip, pack_keep_old=not flip)
+        if self.ctor == 'config':
+            return ZODB.config.storageFromString(
+                '<filestorage>\npath %s\n%s</filestorage>' % (path, 'read-only true\n' if read_only else ''))
+        if self.ctor == 'config-opts':
+            return ZODB.config.storageFromString(
+                '<filestorage>\npath %s\ncreate %s\nread-only %s\n%spack-gc %s\npack-keep-old %s\n'
+                '</filestorage>' % (path, tf[first and not read_only], tf[read_only],
+                                    '' if self.quota is None else 'quota %d\n' % self.quota,
+                                    tf[flip], tf[not flip]))
+        raise ValueError(self.ctor)
+
+    def wrap(self, raw):
+        if self.kind == 'hexfs':
+            from ZODB.tests.hexstorage import HexStorage
+            return HexStorage(raw)
+        return raw
+
+    def lock_owner(self):
+        return self.st if self.wrapped else self.raw
+
+    def wrap_demo(self, read_only_base=True):
+        """the FileStorage so far becomes the base of a DemoStorage with a new FileStorage for the
+        changes (through <demostorage> when the case is constructed by ZODB.config)"""
+        from ZODB.DemoStorage import DemoStorage
+        import ZODB.config
+        if self.db is not None:
+            self.db.close()
+        else:
+            self.st.close()
+        if self.ctor.startswith('config'):
+            self.st = ZODB.config.storageFromString(
+                '<demostorage>\n<filestorage base>\npath %s\nread-only true\n</filestorage>\n'
+                '<filestorage changes>\npath %s\n</filestorage>\n</demostorage>' % (self.path, self.path2))
+        else:
+            base = self.open_fs(self.path, read_only=True)
+            self.st = DemoStorage(base=base, changes=self.open_fs(self.path2, first=not os.path.exists(self.path2)))
+        self.raw = self.st.changes
+        self.wrapped = True
 
     def close(self):
         try:
-            self.st.close()
+            if self.db is not None:
+                self.db.close()
+            else:
+                self.st.close()
         except Exception:  # noqa: BLE001
             pass
         shutil.rmtree(self.dir, ignore_errors=True)
 
     # -- 2PC
     def _tpc_begin(self, txn, tid, status):
-        self.st.tpc_begin(txn, None if tid is None else p64(tid), status)
+        if self.wrapped:
+            kw = {} if tid is None else {'tid': p64(tid)}
+            if status != ' ':
+                kw['status'] = status
+            self.st.tpc_begin(txn, **kw)
+        else:
+            self.st.tpc_begin(txn, None if tid is None else p64(tid), status)
 
     def _cur_tid(self):
-        return self.st._tid
+        return self.raw._tid
 
     def begin(self, tid, now, status, u, d, e):
         from ZODB.Connection import TransactionMetaData
@@ -461,18 +585,40 @@ class RealFS(RealBase):
         return guard(lambda: self.st.tpc_abort(self.txn) and 'ok' or 'ok')
 
     def reopen(self, mode):
+        """close and open again: 'keep' the saved index, 'drop' it (full scan), 'stale' = put back the
+        index file as it was before this close (older than the data file), 'ro' = open read-only"""
         def f():
-            self.st.close()
-            if mode == 'drop' and os.path.exists(self.path + '.index'):
-                os.remove(self.path + '.index')
-            self.st = self.FileStorage(self.path)
+            idx = self.path2 + '.index' if self.wrapped else self.path + '.index'
+            stale = None
+            if mode == 'stale' and os.path.exists(idx):
+                with open(idx, 'rb') as fh:
+                    stale = fh.read()
+            had_db = self.db is not None
+            if had_db:
+                self.db.close()
+                self.db = None
+            else:
+                self.st.close()
+            if mode == 'drop' and os.path.exists(idx):
+                os.remove(idx)
+            if stale is not None:
+                with open(idx, 'wb') as fh:
+                    fh.write(stale)
+            if self.wrapped:
+                self.wrapped = False
+                self.wrap_demo()
+            else:
+                self.raw = self.open_fs(self.path, read_only=(mode == 'ro'))
+                self.st = self.wrap(self.raw)
+            if had_db:
+                self.open_db(0.0)
             return 'ok'
         return guard(f)
 
     def state(self):
         def f():
-            ix = sorted((u64(k), v) for k, v in self.st._index.items())
-            return 'pos=%d ltid=%s index=[%s]' % (self.st._pos, hx(u64(self.st._ltid)),
+            ix = sorted((u64(k), v) for k, v in self.raw._index.items())
+            return 'pos=%d ltid=%s index=[%s]' % (self.raw._pos, hx(u64(self.raw._ltid)),
                                                   ','.join('%s:%d' % (hx(k), v) for k, v in ix))
         return guard(f)
 
@@ -480,11 +626,13 @@ class RealFS(RealBase):
     def history(self, o, n):
         def f():
             out = []
-            for d in self.st.history(p64(o), n):
+            raw = self.st.history(p64(o), n)
+            for d in raw:
                 ext = {k: v for k, v in d.items()
                        if k not in ('time', 'user_name', 'description', 'tid', 'size')}
                 out.append((u64(d['tid']), d['user_name'], d['description'], self.ext_of(ext), d['size']))
-            return out
+            m = self.via_db('history', raw, p64(o), n)
+            return ('err:' + m.strip()) if m else out
         return guard(f)
 
     def undoLog(self, first, last):
@@ -503,7 +651,9 @@ class RealFS(RealBase):
                 return 'err:negative-last-differs'
             if conv(self.st.undoInfo(first, last)) != r:
                 return 'err:undoInfo-differs'
-            return r
+            m = (self.via_db('undoLog', self.st.undoLog(first, last), first, last) or
+                 self.via_db('undoInfo', self.st.undoLog(first, last), first, last))
+            return ('err:' + m.strip()) if m else r
         return guard(f)
 
     def undoLogF(self, user, first, last):
@@ -535,6 +685,9 @@ class RealFS(RealBase):
                 spec['description'] = d
             if e is not None:
                 spec['x'] = pickle.loads(e)['x']
+            m = self.via_db('undoInfo', self.st.undoInfo(first, last, spec), first, last, spec)
+            if m:
+                return 'err:' + m.strip()
             return [(u64(base64.decodebytes(x['id'] + b'\n')), x['user_name'], x['description'],
                      self.ext_of({k: v for k, v in x.items()
                                   if k not in ('time', 'user_name', 'description', 'id', 'size')}), x['size'])
@@ -558,23 +711,38 @@ class RealFS(RealBase):
 
 
 class RealMap(RealBase):
-    """MappingStorage, or DemoStorage over a MappingStorage base that received the first
-    `base_n` transactions directly"""
+    """MappingStorage (map), HexStorage around it (hexmap), or DemoStorage over a MappingStorage base
+    that received the first `base_n` transactions directly, optionally pushed once more (demo)"""
 
     def __init__(self, kind):
         RealBase.__init__(self)
         from ZODB.MappingStorage import MappingStorage
         self.kind = kind
         self.st = MappingStorage()
+        if kind == 'hexmap':
+            from ZODB.tests.hexstorage import HexStorage
+            self.st = HexStorage(self.st)
         self.txn = None
+
+    def lock_owner(self):
+        return self.st.base if self.kind == 'hexmap' else self.st
 
     def wrap_demo(self):
         from ZODB.DemoStorage import DemoStorage
         from ZODB.MappingStorage import MappingStorage
         self.st = DemoStorage(base=self.st, changes=MappingStorage())
+        self.wrapped = True
+
+    def push(self):
+        """one more layer: DemoStorage.push() with a fresh MappingStorage for the changes"""
+        self.st = self.st.push()
 
     def close(self):
-        pass
+        if self.db is not None:
+            try:
+                self.db.close()
+            except Exception:  # noqa: BLE001
+                pass
 
     def _tpc_begin(self, txn, tid, status):
         if tid is None:
@@ -583,7 +751,8 @@ class RealMap(RealBase):
             self.st.tpc_begin(txn, p64(tid))
 
     def _cur_tid(self):
-        return getattr(self.st, 'changes', self.st)._tid
+        st = self.st.base if self.kind == 'hexmap' else self.st
+        return getattr(st, 'changes', st)._tid
 
     def begin(self, tid, now, status, u, d, e):
         from ZODB.Connection import TransactionMetaData
@@ -616,8 +785,12 @@ class RealMap(RealBase):
 
     def history(self, o, n):
         def f():
+            raw = self.st.history(p64(o), n)
+            m = self.via_db('history', raw, p64(o), n)
+            if m:
+                return 'err:' + m.strip()
             return [(u64(d['tid']), d['user_name'], d['description'], self.ext_of(d['extension']), d['size'])
-                    for d in self.st.history(p64(o), n)]
+                    for d in raw]
         return guard(f)
 
 
@@ -700,45 +873,139 @@ def now_raw(now):
     return u64(TimeStamp(*(time.gmtime(now)[:5] + (now % 60,))).raw())
 
 
+_ROOT = {}
+
+
+def root_pickle():
+    """the record DB(storage) writes for the root object (computed once on a scratch storage)"""
+    if 'd' not in _ROOT:
+        import ZODB
+        from ZODB.MappingStorage import MappingStorage
+        m = MappingStorage()
+        ZODB.DB(m).close()
+        _ROOT['d'] = m.load(p64(0), '')[0]
+    return _ROOT['d']
+
+
+def make_real(case, tmp):
+    kind = case['kind']
+    if kind in FILE_KINDS:
+        return RealFS(tmp, kind, case.get('ctor', 'direct'), case.get('quota'))
+    return RealMap(kind)
+
+
 def execute(case, tmp, full_every=False):
+    """run one case to its end"""
+    g = execute_steps(case, tmp, full_every)
+    while True:
+        try:
+            next(g)
+        except StopIteration as e:
+            return e.value
+
+
+def execute_pair(a, b, tmp, full_every=False):
+    """two storages alive in one process, their transactions (and two-phase commits) interleaved"""
+    gens = [execute_steps(a, tmp, full_every), execute_steps(b, tmp, full_every)]
+    runs = [None, None]
+    turn = random.Random(a.get('qseed', 0) * 31 + b.get('qseed', 0))
+    try:
+        while any(r is None for r in runs):
+            i = turn.choice([k for k in (0, 1) if runs[k] is None])
+            try:
+                next(gens[i])
+            except StopIteration as e:
+                runs[i] = e.value
+    finally:
+        for g in gens:
+            g.close()
+    return runs
+
+
+def execute_steps(case, tmp, full_every=False):
+    """generator: yields where another storage of the same process may take a turn"""
     kind = case['kind']
     full_every = full_every or bool(case.get('full'))
     run = Run()
-    h = orc.History(dedupe=(kind != 'fs'))
+    h = orc.History(dedupe=kind in ('map', 'hexmap', 'demo'),
+                    xlen=(lambda n: 2 + 2 * n) if kind in ('hexfs', 'hexmap') else None)
     api = OracleAPI(h)
-    real = RealFS(tmp) if kind == 'fs' else RealMap(kind)
+    real = make_real(case, tmp)
+    ctx = Ctx(kind, real)
     rq = random.Random(case.get('qseed', 0))
     touched = set()
+    run.count('ctor:' + case.get('ctor', 'direct')) if kind in FILE_KINDS else None
     try:
-        run.add({'fs': 'reset', 'map': 'm.reset'}.get(kind), 'ok', 'ok')
+        run.add(ctx.line('reset'), 'ok', 'ok')
         txns = case['txns']
-        base_n = case.get('base_n', 0) if kind == 'demo' else 0
-        if kind == 'demo' and base_n == 0:
+        base_n = case.get('base_n', 0) if kind in DEMO_KINDS else 0
+        push_n = case.get('push_n', 0) if kind == 'demo' else 0
+        if kind in DEMO_KINDS and base_n == 0:
             real.wrap_demo()
+        if case.get('viadb') and kind in ('fs', 'map'):
+            # the storage is also reached through a DB: its first open commits the root object
+            now0 = case.get('dbnow', 1_500_000_000.0)
+            real.open_db(now0)
+            desc, data = b'initial database creation', root_pickle()
+            tid = real.lastTransaction()
+            good = 'ok tid=' + hx(tid)
+            run.add(ctx.line('begin n:%s 32 - %s -' % (hx(now_raw(now0)), tok(desc))) if kind == 'fs' else
+                    ctx.line('begin n:%s - %s -' % (hx(now_raw(now0)), tok(desc))), good, good)
+            run.add(ctx.line('store %s %s %s' % (hx(0), hx(0), tok(data))), 'ok', 'ok')
+            if kind == 'fs':
+                run.add('vote', 'ok', 'ok')
+            run.add(ctx.line('finish'), good, good)
+            h.begin(tid, ' ', b'', desc, b'')
+            h.store(0, 0, data)
+            h.finish()
+            run.count('viadb')
         begun = None
-        for ti, txn in enumerate(txns):
+        ti = 0
+        retried = set()
+        while ti < len(txns):
+            txn = txns[ti]
+            in_base = kind in DEMO_KINDS and ti + 1 <= base_n
             nxt = None
-            if txn.get('overlap') and ti + 1 < len(txns) and not (kind == 'demo' and ti + 1 <= base_n):
+            if txn.get('overlap') and ti + 1 < len(txns) and not in_base and ti + 1 != push_n:
                 nxt = txns[ti + 1]
-            if txn.get('fresh') and kind == 'fs' and begun is None:
+            if txn.get('fresh') and ctx.fsops and begun is None:
                 # a freshly opened storage: no pooled read handle exists yet, the first reads will
                 # happen while this transaction is voted
-                run.add('reopen', real.reopen('keep'), 'ok')
+                run.add(ctx.line('reopen'), real.reopen('keep'), 'ok')
                 run.count('reopen:fresh-before-txn')
-            aborted, begun = _run_txn(
-                kind, txn, real, h, run, touched, begun=begun, overlap_next=nxt,
-                midq=(lambda: _queries(kind, real, h, api, run, rq, False, touched))
-                if kind == 'fs' and not (kind == 'demo' and ti + 1 <= base_n) else None)
-            if kind == 'demo' and ti + 1 == base_n:
+            aborted, begun, failed = yield from _run_txn(
+                ctx, txn, real, h, run, touched, begun=begun, overlap_next=nxt,
+                midq=(lambda: _queries(ctx, real, h, api, run, rq, False, touched))
+                if kind in FILE_KINDS and not in_base else None)
+            if kind in DEMO_KINDS and ti + 1 == base_n:
                 real.wrap_demo()
+            if push_n and ti + 1 == push_n and begun is None:
+                real.push()
+                run.count('demo:pushed')
             last = ti + 1 == len(txns)
-            if not (kind == 'demo' and ti + 1 < base_n):
-                _queries(kind, real, h, api, run, rq, last or full_every, touched)
+            if not (kind in DEMO_KINDS and ti + 1 < base_n):
+                _queries(ctx, real, h, api, run, rq, last or full_every, touched)
             mode = txn.get('reopen')
-            if mode and kind == 'fs' and begun is None:
-                run.add('reopen', real.reopen(mode), 'ok')
+            if mode and kind in FILE_KINDS and begun is None and not (kind == 'demofs' and ti + 1 == base_n):
+                run.add(ctx.line('reopen'), real.reopen(mode), 'ok')
                 run.count('reopen:' + mode)
-                _queries(kind, real, h, api, run, rq, last or full_every, touched)
+                _queries(ctx, real, h, api, run, rq, last or full_every, touched)
+                if mode == 'ro':
+                    # the read-only instance has answered; back to a writable one
+                    run.add(ctx.line('reopen'), real.reopen('keep'), 'ok')
+            yield
+            if failed is not None and begun is None and ti not in retried and rq.random() < 0.6:
+                # failure, then the SAME kind of operation again: the transaction is retried
+                # without the operation that failed
+                retried.add(ti)
+                txns = txns[:ti + 1] + [dict(txn, ops=[o for k, o in enumerate(txn['ops']) if k != failed],
+                                             reopen=None, overlap=False, fresh=False)] + txns[ti + 1:]
+                if base_n > ti:
+                    base_n += 1
+                if push_n > ti:
+                    push_n += 1
+                run.count('retry-after-failure')
+            ti += 1
         # executed-trace facts for the non-triviality rule
         backptr = any(r[2] is not None or r[1] is None for t in h.txns for r in t['recs'])
         deep = any(len(h.revs(o)) >= 3 for o in h.oids())
@@ -758,20 +1025,19 @@ def execute(case, tmp, full_every=False):
     return run
 
 
-def _queries(kind, real, h, api, run, rq, full, touched):
-    if kind == 'fs':
+def _queries(ctx, real, h, api, run, rq, full, touched):
+    if ctx.kind == 'fs':
         run.add('state', real.state(), None)
     q = query_args(h, rq, full, touched)
-    rs = qall_segments(real, q, kind)
-    os_ = qall_segments(api, q, kind)
-    run.add(qall_line(q) if kind == 'fs' else ('m.' + qall_line(q)) if kind == 'map' else None,
-            ' | '.join(rs), ' | '.join(os_))
+    rs = qall_segments(real, q, ctx.fsops)
+    os_ = qall_segments(api, q, ctx.fsops)
+    run.add(ctx.line(qall_line(q)), ' | '.join(rs), ' | '.join(os_))
     run.count('queries', len(rs))
 
 
-def _begin_args(kind, txn, ltid):
+def _begin_args(ctx, txn, ltid):
     u, d, e = mk_bytes(txn['u']), mk_bytes(txn['d']), mk_bytes(txn['e'])
-    status = txn.get('status', ' ') if kind == 'fs' else ' '
+    status = txn.get('status', ' ') if ctx.fsops else ' '
     if txn['tid'][0] == 'x':
         tid = ltid + txn['tid'][1]
         if tid & 0xffffffff == 0xffffffff:
@@ -787,46 +1053,52 @@ def _begin_args(kind, txn, ltid):
                 mline='m.begin %s %s %s %s' % (t, tok(u), tok(d), tok(e)))
 
 
-def _run_txn(kind, txn, real, h, run, touched, begun=None, overlap_next=None, midq=None):
+def _run_txn(ctx, txn, real, h, run, touched, begun=None, overlap_next=None, midq=None):
     """one transaction.  `begun` = (args, observation) when its tpc_begin was already entered by a
     second thread while the previous transaction was in progress; `overlap_next` = the next
     transaction, whose tpc_begin is to be entered that way before this one finishes.
-    Returns (aborted, begun-for-the-next-transaction | None)."""
+    Generator (yields where another storage may take a turn); returns (aborted,
+    begun-for-the-next-transaction | None, index of the operation that failed | None)."""
+    kind = ctx.kind
     if begun is None:
-        a = _begin_args(kind, txn, h.ltid())
+        a = _begin_args(ctx, txn, h.ltid())
         robs = real.begin(a['tid'], a['now'], a['status'], a['u'], a['d'], a['e'])
     else:
         a, robs = begun
     u, d, e, status = a['u'], a['d'], a['e'], a['status']
     run.count('begin:explicit' if a['tid'] is not None else 'begin:clock')
     rtid = int(robs.split('tid=')[1], 16)
-    toolong = kind == 'fs' and max(len(u), len(d), len(e)) > 65535
+    toolong = kind in FILE_KINDS and max(len(u), len(d), len(e)) > 65535
     oobs = ('err:FileStorageError' if toolong else 'ok') + ' tid=' + hx(rtid)
     run.add(a['line'] if kind == 'fs' else a['mline'] if kind == 'map' else None, robs, oobs)
     run.count('meta-len:%d' % max(len(u), len(d), len(e)) if max(len(u), len(d), len(e)) in (0, 1, 65535, 65536)
               else 'meta-len:other')
     h.begin(rtid, status, u, d, e)
     ok = robs.startswith('ok')
+    failed = None
     if ok:
-        for op in txn['ops']:
-            r = _run_op(kind, op, real, h, run, rtid, touched)
+        for k, op in enumerate(txn['ops']):
+            r = _run_op(ctx, op, real, h, run, rtid, touched)
             if r == 'abort':
                 ok = False
+                failed = k
                 break
     b = None
+    if overlap_next is None:
+        yield          # begun, stored, not voted: the other storage may run its own two-phase commit
     if overlap_next is not None:
         # the next transaction's tpc_begin arrives now, from a second thread; it has to wait for the
         # commit lock and must get its tid only after this transaction is finished
-        b = _begin_args(kind, overlap_next, max(rtid, h.ltid()))
+        b = _begin_args(ctx, overlap_next, max(rtid, h.ltid()))
         real.begin_overlapped(b['tid'], b['now'], b['status'], b['u'], b['d'], b['e'])
         run.count('begin:overlapped')
         if real._holder.get('arrived'):
             run.count('begin:overlapped:waited-for-commit-lock')
     end = txn.get('end', 'commit')
-    if ok and end == 'abort-voted' and kind == 'fs':
+    if ok and end == 'abort-voted' and ctx.fsops:
         # voted, queried (the pooled read handles now hold the voted bytes), then aborted: the next
         # transaction is written over the same file region
-        run.add('vote', real.vote(), 'ok')
+        run.add(ctx.line('vote'), real.vote(), 'ok')
         if midq is not None:
             midq()
             run.count('queries:while-voted')
@@ -839,6 +1111,8 @@ def _run_txn(kind, txn, real, h, run, touched, begun=None, overlap_next=None, mi
         ok = False
     if ok and end == 'commit':
         run.add('vote' if kind == 'fs' else None, real.vote(), 'ok')
+        if overlap_next is None:
+            yield      # voted, not finished
         if midq is not None:
             # voted, not finished: the file ends with the complete record, checkpoint flag set;
             # every answer (the iterator reads the file!) is still that of the committed history
@@ -847,39 +1121,41 @@ def _run_txn(kind, txn, real, h, run, touched, begun=None, overlap_next=None, mi
         robs = real.finish()
         # the property: transaction ids strictly increase in commit order
         good = robs.startswith('ok tid=') and int(robs.split('tid=')[1], 16) == rtid and rtid > h.ltid()
-        run.add({'fs': 'finish', 'map': 'm.finish'}.get(kind), robs,
-                robs if good else 'ok tid=<above %s>' % hx(h.ltid()))
+        run.add(ctx.line('finish'), robs, robs if good else 'ok tid=<above %s>' % hx(h.ltid()))
         h.finish()
         run.count('commit')
         aborted = False
     else:
-        run.add({'fs': 'abort', 'map': 'm.abort'}.get(kind), real.abort(), 'ok')
+        run.add(ctx.line('abort'), real.abort(), 'ok')
         h.abort()
         run.count('abort')
         aborted = True
-    return aborted, ((b, real.begin_overlapped_join()) if b is not None else None)
+    return aborted, ((b, real.begin_overlapped_join()) if b is not None else None), failed
 
 
-def _run_op(kind, op, real, h, run, tid, touched):
+def _run_op(ctx, op, real, h, run, tid, touched):
     name = op[0]
-    model = kind == 'fs'
+    kind = ctx.kind
     if name == 'store':
         _, oid, smode, dd = op
         data = mk_bytes(dd)
         cur = h.current_tid(oid)
         serial = cur if smode == 'cur' else (cur + 1 if smode == 'bad' else 0)
         touched.add(oid)
-        if kind == 'demo' and smode != 'cur':
+        if kind in DEMO_KINDS and real.wrapped and smode != 'cur':
             serial = cur            # DemoStorage resolves against load_current: keep it conflict free
         robs = real.store(oid, serial, data)
-        run.add('store %s %s %s' % (hx(oid), hx(serial), tok(data)) if model else
-                'm.store %s %s %s' % (hx(oid), hx(serial), tok(data)) if kind == 'map' else None, robs,
-                h.store(oid, serial, data))
+        if robs == 'err:Quota' and real.quota is not None:
+            # FileStorage(quota=...) refuses a record beyond the quota: nothing of it is committed
+            run.add(None, robs, None)
+            run.count('store:quota-exceeded')
+            return 'abort'
+        run.add(ctx.line('store %s %s %s' % (hx(oid), hx(serial), tok(data))), robs, h.store(oid, serial, data))
         run.count('op:store')
         if len(data) > 65536:
             run.count('data>64K')
         return robs
-    if kind != 'fs':
+    if not ctx.fsops:
         return 'skip'
     if name == 'delete':
         _, oid, smode = op
@@ -887,7 +1163,7 @@ def _run_op(kind, op, real, h, run, tid, touched):
         serial = cur if smode == 'cur' else cur + 1
         touched.add(oid)
         robs = real.delete(oid, serial)
-        run.add('delete %s %s' % (hx(oid), hx(serial)), robs, h.delete(oid, serial))
+        run.add(ctx.line('delete %s %s' % (hx(oid), hx(serial))), robs, h.delete(oid, serial))
         run.count('op:delete')
         return robs
     if name == 'restore':
@@ -923,8 +1199,8 @@ def _run_op(kind, op, real, h, run, tid, touched):
                     if r is not None and data is None and r[1] is not None:
                         prev = None     # len(None): TypeError in _data_find, nothing to learn
         robs = real.restore(oid, tid, data, prev)
-        run.add('restore %s %s %s %s' % (hx(oid), hx(tid), 'None' if data is None else tok(data),
-                                         'None' if prev is None else hx(prev)), robs, None)
+        run.add(ctx.line('restore %s %s %s %s' % (hx(oid), hx(tid), 'None' if data is None else tok(data),
+                                                  'None' if prev is None else hx(prev))), robs, None)
         run.count('op:restore' + ('' if prev is None else ':hint'))
         if robs != 'ok':
             run.count('restore:' + robs)
@@ -937,7 +1213,7 @@ def _run_op(kind, op, real, h, run, tid, touched):
             return 'skip'
         target = committed[op[1] % len(committed)]
         robs = real.undo(target)
-        run.add('undo %s' % hx(target), robs, None)
+        run.add(ctx.line('undo %s' % hx(target)), robs, None)
         run.count('op:undo')
         if robs != 'ok':
             run.count('undo:' + robs)
@@ -1233,22 +1509,55 @@ def load_corpus():
 
 
 # ---------------------------------------------------------------- worker: execute, judge, compare with model
+def judge_pair(a, b, tmp, timeout, full_every):
+    """two cases executed with their storages alive at once and their steps interleaved:
+    [(case, run, signature, diff)] — a case that fails only in company is reported as a pair"""
+    try:
+        runs = with_timeout(lambda: execute_pair(a, b, tmp, full_every), 2 * timeout)
+    except CaseTimeout:
+        runs = None
+    if runs is None:
+        return [(c,) + judge(c, tmp, timeout, full_every, confirm=True) for c in (a, b)]
+    out = []
+    for i, (c, run) in enumerate(zip((a, b), runs)):
+        d = oracle_diff(run)
+        if d is None:
+            out.append((c, run, None, None))
+            continue
+        solo = judge(c, tmp, timeout, full_every, confirm=True)
+        if solo[1] is not None:
+            out.append((c,) + solo)                 # fails on its own: the usual report
+        else:
+            pair = dict(kind='pair', cases=[a, b], which=i)
+            run.pair = True
+            out.append((pair, run, signature(c, run, d) + ':two-instances', d))
+    return out
+
+
 def work(args):
-    cases, tmp, full_every = args
+    units, tmp, full_every = args
     res = dict(cases=[], violations=[], mismatches=[], counts={}, infra=None)
     runs = []
     os.makedirs(tmp, exist_ok=True)
     timeout = CASE_TIMEOUT
-    for case in cases:
+    judged = []
+    for unit in units:
         try:
-            run, sig, d = judge(case, tmp, timeout, full_every, confirm=(timeout == CASE_TIMEOUT))
+            if len(unit) == 2:
+                judged += judge_pair(unit[0], unit[1], tmp, timeout, full_every)
+                res['counts']['pair:interleaved'] = res['counts'].get('pair:interleaved', 0) + 1
+            else:
+                judged.append((unit[0],) + judge(unit[0], tmp, timeout, full_every,
+                                                 confirm=(timeout == CASE_TIMEOUT)))
         except Exception as e:  # noqa: BLE001
             import traceback
             res['infra'] = 'executing a case failed: %r\n%s\ncase=%s' % (
-                e, traceback.format_exc()[-1500:], json.dumps(case)[:3000])
+                e, traceback.format_exc()[-1500:], json.dumps(unit)[:3000])
             return res
-        if run is None:       # the real storage hung: a violation in its own right
+        if judged[-1][1] is None:
             timeout = SHRINK_TIMEOUT          # do not wait that long again in this worker
+    for case, run, sig, d in judged:
+        if run is None:       # the real storage hung: a violation in its own right
             res['cases'].append((case, False, None))
             res['counts']['violation:' + sig] = res['counts'].get('violation:' + sig, 0) + 1
             if sum(1 for v in res['violations'] if v[0] == sig) < 1:
@@ -1262,17 +1571,20 @@ def work(args):
         for r in run.real:
             if r.startswith('err:'):
                 res['counts'][r.split()[0]] = res['counts'].get(r.split()[0], 0) + 1
-        sample = dict(kind=case['kind'], ops=[l for l in run.lines if l and not l.startswith('qall')][:14],
+        sample = dict(kind=case['kind'], ops=[l for l in run.lines if l and 'qall' not in l[:6]][:14],
                       real=[r[:160] for r in run.real][:14])
         res['cases'].append((case, run.nontrivial, sample))
         run.case = case
         if d is not None:
             res['counts']['violation:' + sig] = res['counts'].get('violation:' + sig, 0) + 1
             if sum(1 for v in res['violations'] if v[0] == sig) < 2:
-                small = shrink(case, tmp, sig)
-                r2, _, d2 = judge(small, tmp, CASE_TIMEOUT)
-                if r2 is None or d2 is None:
-                    r2, d2 = run, d
+                if case['kind'] == 'pair':
+                    small, r2, d2 = case, run, d          # needs both storages: reported as it is
+                else:
+                    small = shrink(case, tmp, sig)
+                    r2, _, d2 = judge(small, tmp, CASE_TIMEOUT)
+                    if r2 is None or d2 is None:
+                        r2, d2 = run, d
                 res['violations'].append((sig, '%s storage answered %s ; the list of committed '
                                           'transactions says %s (after %r)' % (
                                               case['kind'], d2[1][:300], d2[2][:300],
